@@ -50,7 +50,7 @@ def cases(tier):
                 for lv in ((1, 2) if tier == 'quick' else (1, 2, 3)):
                     if lv == 3 and lay['n'] > 2:
                         continue
-                    if lv >= 2 and lay['template'] == 'free2' and tier == 'quick':
+                    if lay['template'] == 'free2' and lv >= (2 if tier == 'quick' else 3):
                         continue
                     cs.append(dict(lay, ops=[op], levels=lv))
             else:
